@@ -340,7 +340,7 @@ def special_columns(entries):
     return [e['name'] for e in entries if e['haloDeps'] or e['group']]
 
 
-def random_subset(rng, names, special, kmax=8):
+def random_subset(rng, names, special, kmax=7):
     k = int(rng.integers(2, kmax + 1))
     pool = list(names)
     picks = []
@@ -386,7 +386,7 @@ def run_world(ctx, world, dts, entries, n_subsets, alone_all_modes, pairs):
     # a column with nothing else but a subsample selection (the automatic index / merge columns)
     for _, cleaned in modes_of(world):
         for sub in subs_of(world)[1:]:
-            for name in ['N', 'id' if world.layout != 'lc' else 'index_halo', 'npoutA', 'npstartA']:
+            for name in ['N', 'npoutA']:
                 if name in valid_names(dts, world.layout, cleaned):
                     check_request(ctx, world, dts, [name], cleaned, sub, te, lm)
     flush_model(ctx, world, te, lm)
@@ -462,8 +462,8 @@ def run(ctx):
         run_world(ctx, snap, dts, entries, n_subsets=45, alone_all_modes=False, pairs=False)
         run_world(ctx, lc, dts, entries, n_subsets=15, alone_all_modes=True, pairs=False)
     else:
-        run_world(ctx, snap, dts, entries, n_subsets=450, alone_all_modes=True, pairs=True)
-        run_world(ctx, lc, dts, entries, n_subsets=150, alone_all_modes=True, pairs=True)
+        run_world(ctx, snap, dts, entries, n_subsets=420, alone_all_modes=True, pairs=True)
+        run_world(ctx, lc, dts, entries, n_subsets=130, alone_all_modes=True, pairs=True)
 
 
 def intensify(ctx):
